@@ -22,29 +22,38 @@ from harness.memstream import connect_pair
 META = {
     "level": "proof",
     "level_text": "Theorems over all values (an inductive universe with every nesting) and all histories of an executable two-party "
-                  "model of _box/_unbox/the weak proxy cache/the local-object table (props/C03.v): plain values arrive as the same "
-                  "constructor and content, every other object as THE proxy for its id pack, exact tuples element-wise at any depth, "
-                  "a proxy handed back is the stored original (any number of hops), one live proxy per object, a fresh one after a "
-                  "drop, an operation through a proxy reaches the owner's object, well-behaved histories never raise and keep the "
-                  "invariant. The wire leg is C04's round trip applied to the package, which is proved to be a plain value. The two "
-                  "decision ladders are regenerated from _box/_unbox on every run and tied by reflexivity; the extracted model is "
-                  "compared step by step with two real connections. Proof is the right level: the property quantifies over all "
-                  "values, nestings and orders of sending.",
+                  "model of _box/_unbox/the weak proxy cache/the local-object table (props/C03.v), for histories in which the id packs "
+                  "of lent objects do not change: plain values arrive as the same constructor and content, every other object as THE "
+                  "proxy for its id pack, exact tuples element-wise at any depth, a proxy handed back is the stored original (any "
+                  "number of hops), one live proxy per object, a fresh one after a drop, an operation through a proxy reaches the "
+                  "owner's object, well-behaved histories never raise and keep the invariant. When the class of a LENT object is "
+                  "reassigned or renamed the code violates 'same proxy while alive' and 'handed back = original': two _refuted witness "
+                  "theorems, produced for real by the harness (known finding). The wire leg is C04's round trip applied to the "
+                  "package, which is proved to be a plain value. The decision ladders of _box/_unbox and the layout/guards of "
+                  "get_id_pack are regenerated on every run and tied by reflexivity; the extracted model is compared step by step "
+                  "with two real connections. obtain/deliver: only the plumbing is proved (_partial theorems, pickle uninterpreted); "
+                  "that the copy is equal and independent is HARNESS-LEVEL evidence (oracle on 9 fixed + 40/600 generated picklable "
+                  "structures per direction). Three address spaces: oracle-only (6 object kinds over a real two-hop chain).",
     "level_note": "Trusted: Coq kernel, pygen, extraction + driver, harness. CPython's id() is a parameter (get_id_pack: any function "
-                  "with encodable id packs; identity theorems assume no other live object shares the id pack). pickle is an oracle "
-                  "(obtain/deliver theorem is partial: plumbing only). Chained connections over three address spaces and netref class "
-                  "creation (HANDLE_INSPECT) are outside the model; the latter runs for real in the harness.",
+                  "with encodable id packs, the same throughout a history except for objects that are not lent); identity theorems "
+                  "assume no other live object shares the id pack, which holds inside one address space but is NOT provable across "
+                  "address spaces (forked peers share layouts): chained connections are outside the model. The two c03_encoding_* "
+                  "theorems are facts of the encoding, not of the code: that subclass instances are by-reference objects rests on the "
+                  "generated fact dumpable_tests_exact_types plus the harness mapping real objects by exact type. Netref class "
+                  "creation (HANDLE_INSPECT) is outside the model and runs for real in the harness.",
     "technique": "Coq proof by nested induction over the value universe with state threading, invariant over operation lists; "
                  "regenerated ladders tied by reflexivity; differential correspondence with real connection pairs on one thread",
     "gen": ["consts", "brine", "box", "colls"],
-    "shapes": ["box.*", "brine.dumpable", "colls.WeakValueDict.*", "colls.RefCountingColl.add", "colls.RefCountingColl.__getitem__"],
+    "shapes": ["box.*", "brine.dumpable", "colls.WeakValueDict.*", "colls.RefCountingColl.add", "colls.RefCountingColl.__getitem__",
+               "handlers.lib.get_id_pack"],
     "models": ["box"],
     "model_files": ["Box"],
     "assumptions": [
         "CPython: id() of simultaneously live objects are distinct and a proxy's finalizer runs when the application drops its last "
         "reference (reference counting)",
         "excluded by 'encodable': integers beyond sys.get_int_max_str_digits(), lengths >= 2^32, nesting beyond the recursion limit",
-        "one connection between two address spaces, used by one thread at a time; pickle round-trips to an equal object (obtain/deliver)",
+        "one connection between two address spaces, used by one thread at a time; the class (and class name) of an object does not "
+        "change while the object is lent (violated => known finding); pickle round-trips to an equal object (obtain/deliver, harness-level)",
     ],
 }
 
@@ -85,10 +94,13 @@ class PColor(enum.IntEnum):
 class Entry(object):
     """mut(conn, proxy, d): apply an operation with argument d through the proxy; obs(obj): snapshot of the object's
     observable state; hit(obj, d): is the effect of that operation visible on the object"""
-    __slots__ = ("idx", "name", "sx", "obj", "kind", "mut", "obs", "hit", "probe")
+    __slots__ = ("idx", "name", "sx", "obj", "kind", "mut", "obs", "hit", "probe", "rekey", "group", "changed")
 
     def __init__(self, kind, obj, mut=None, obs=None, hit=None, probe=False):
         self.kind, self.obj, self.mut, self.obs, self.probe = kind, obj, mut, obs, probe
+        self.rekey = None        # callable: reassign / rename the class, so that get_id_pack answers differently
+        self.group = [self]      # the entries whose id pack that changes
+        self.changed = False     # the id pack changed while the object was lent
         self.hit = hit if hit is not None else (lambda o, d: _obs_attr(o) == d)
 
 
@@ -179,6 +191,23 @@ def make_pool():
         return Twin
     twins = [make_twin(i) for i in range(3)]
 
+    class Shifty(object):       # instances are switched between these two classes (o.__class__ = ...)
+        pass
+
+    class Shifty2(object):
+        pass
+
+    class Ren(object):          # a class that gets renamed (Ren.__name__ = ...)
+        pass
+
+    def reclass(o):
+        def f():
+            o.__class__ = Shifty2 if type(o) is Shifty else Shifty
+        return f
+
+    def rename():
+        Ren.__name__ = "Renamed" if Ren.__name__ == "Ren" else "Ren"
+
     thing = Thing()
     inst = [
         Entry("list", [1, 2], _callattr("append"), lambda o: tuple(o), lambda o, d: o[-1] == d),
@@ -211,6 +240,8 @@ def make_pool():
         Entry("twin-instance", twins[0](), _setattr, _obs_attr), Entry("twin-instance", twins[1](), _setattr, _obs_attr),
         Entry("twin-instance", twins[2](), _setattr, _obs_attr), Entry("twin-instance", twins[0](), _setattr, _obs_attr),
         Entry("marker", Marker()), Entry("marker", Marker()), Entry("marker", Marker()), Entry("marker", Marker()),
+        Entry("reclassable-instance", Shifty(), _setattr, _obs_attr), Entry("reclassable-instance", Shifty(), _setattr, _obs_attr),
+        Entry("instance-of-renamable-class", Ren(), _setattr, _obs_attr),
         # boundary objects: each is exercised in a dedicated short history
         Entry("module-named-module", types.ModuleType("module"), _setattr, _obs_attr, None, True),
         Entry("catch-all-getattr", CatchAll(), None, None, None, True),
@@ -223,6 +254,7 @@ def make_pool():
         Entry("builtin-class", type), Entry("exception-class", ValueError), Entry("builtin-class", object),
         Entry("twin-class", twins[0], _setattr, _obs_attr), Entry("twin-class", twins[1], _setattr, _obs_attr),
         Entry("twin-class", twins[2], _setattr, _obs_attr),
+        Entry("renamable-class", Ren, _setattr, _obs_attr),
         Entry("class-named-module", module, _setattr, _obs_attr, None, True),
     ]
     pool = []
@@ -250,6 +282,12 @@ def make_pool():
         pool.append(e)
     for i, e in enumerate(pool):
         e.idx = i
+    for e in pool:
+        if e.kind == "reclassable-instance":
+            e.rekey = reclass(e.obj)
+    ren = [e for e in pool if e.kind in ("renamable-class", "instance-of-renamable-class")]
+    for e in ren:
+        e.rekey, e.group = rename, ren
     return pool
 
 
@@ -458,6 +496,10 @@ class _Flag(object):
         self.hit = True
         self.ctx.violation(*a, **k)
 
+    def note(self, *a, **k):
+        """a violation whose cause the model follows (it is listed as a finding): the history goes on"""
+        self.ctx.violation(*a, **k)
+
 
 def check_arrival(ctx, pr, sender, sent, got, case, path="x"):
     """`sent` (in the sender's address space) arrived as `got` at the other party"""
@@ -513,8 +555,14 @@ def check_arrival(ctx, pr, sender, sent, got, case, path="x"):
     # one proxy per remote object while it is alive
     for n, p in pr.held[rcv].items():
         if pr.target[rcv].get(n) is e and e is not None and p is not got:
-            ctx.violation("second-proxy-while-first-alive", case, observed="a new proxy", expected="the live proxy",
-                          what="an object (%s) received again while a proxy for it is alive arrived as a different proxy" % kind)
+            if e.changed:
+                getattr(ctx, "note", ctx.violation)(
+                    "second-proxy-while-first-alive:object-changed-class", case, observed="a new proxy", expected="the live proxy",
+                    what="an object (%s) whose class was reassigned or renamed while it was lent arrived as a second proxy "
+                         "although the first is alive" % kind)
+            else:
+                ctx.violation("second-proxy-while-first-alive", case, observed="a new proxy", expected="the live proxy",
+                              what="an object (%s) received again while a proxy for it is alive arrived as a different proxy" % kind)
 
 
 def note_targets(pr, rcv, new):
@@ -633,7 +681,7 @@ class Hist(object):
         seen = {}
         for n, p in pr.held[rcv].items():
             t = pr.target[rcv].get(n)
-            if t is not None and seen.setdefault(t.idx, n) != n:
+            if t is not None and not t.changed and seen.setdefault(t.idx, n) != n:
                 self.viol("second-proxy-while-first-alive", case, observed="proxies %d and %d" % (seen[t.idx], n), expected="one proxy",
                           what="two live proxies exist for the same remote object (%s)" % t.kind)
         # --- what went on the wire
@@ -673,6 +721,12 @@ class Hist(object):
                     self.viol("mutation-not-on-owner-object", case, observed=repr(self.safe_obs(ent))[:120], expected="effect of 424242",
                               what="a change made through the reference is not visible on the owner's object (%s)" % ent.kind)
         except Exception as ex:
+            if e.changed and isinstance(ex, KeyError):
+                self.viol("operation-fails:object-changed-class:KeyError", case, observed="KeyError at the owner", expected="the owner's object changes",
+                          what="operating through a live proxy of an object whose class was reassigned or renamed while lent raises KeyError")
+                self.obs.append({"result": ("exc", C.exc_enum(ex)), "pkg": None, "snap": None, "kind": "mut", "skip": True})
+                self.desync = True
+                return
             self.viol("operation-through-proxy-fails:%s" % type(ex).__name__, case, observed=str(ex)[:200],
                       expected="the reference works", what="using a reference that arrived for a %s raises" % ent.kind)
 
@@ -683,6 +737,15 @@ class Hist(object):
             return
         if isinstance(e, RecursionError):
             ctx.count("excluded-recursion")
+            return
+
+        def held_in(sp):
+            return [sp["h"]] if "h" in sp else [n for x in sp.get("t", []) for n in held_in(x)]
+        stale = [n for n in held_in(spec) if pr.target[side].get(n) is not None and pr.target[side][n].changed]
+        if stale and isinstance(e, KeyError):
+            self.viol("echo-fails:object-changed-class:KeyError", case, observed="KeyError at the owner", expected="the original object",
+                      what="handing back a live proxy of an object whose class was reassigned or renamed while lent raises KeyError: "
+                           "dropping its first proxy released the entry of the second")
             return
         # find the by-reference object the failure is about (single-object sends name it precisely)
         ent = None
@@ -759,6 +822,21 @@ class Hist(object):
         pr.nmut[owner] += 1
         pr.lastmut[owner] = e.sx
         self.obs.append({"result": ("ok", [0]), "pkg": None, "snap": pr.snapshot(), "kind": "mut"})
+
+    def rekey(self, side, idx):
+        """reassign / rename the class of a pool object of `side`: get_id_pack answers differently from now on"""
+        pr = self.pr
+        self.ops.append(["rekey", side, idx])
+        e = pr.pool[side][idx]
+        e.rekey()
+        self.mops.append([4, side, [g.name for g in e.group]])
+        lent = {id(slot[0]) for slot in pr.conn[side]._local_objects._dict.values()}
+        for g in e.group:
+            k = get_id_pack(g.obj)
+            pr.idp_real[side][(str(k[0]), k[1], k[2])] = g
+            if id(g.obj) in lent:
+                g.changed = True
+        self.obs.append({"result": ("ok", [0]), "pkg": None, "snap": pr.snapshot(), "kind": "rekey"})
 
     @staticmethod
     def safe_obs(x):
@@ -837,6 +915,8 @@ def gen_spec(r, h, side, depth, stats):
         e = r.choice(pool)
         if r.random() < 0.2:      # same-named classes and their instances, lent at overlapping times
             e = r.choice([x for x in pool if x.kind.startswith("twin")])
+        elif r.random() < 0.1:    # objects whose class gets reassigned / renamed
+            e = r.choice([x for x in pool if x.rekey is not None])
         elif r.random() < 0.5:    # favour objects already lent (re-receive while alive)
             lent = [x for x in pool if id(x.obj) in {id(s[0]) for s in pr.conn[side]._local_objects._dict.values()}]
             if lent:
@@ -884,7 +964,9 @@ def gen_history(ctx, r, nsteps, stats):
             side = r.random() < 0.5
             k = r.random()
             held = list(pr.held[side])
-            if k < 0.62 or not held:
+            if r.random() < 0.03:      # the class of a (possibly lent) object is reassigned / renamed
+                h.rekey(side, r.choice([e.idx for e in pr.pool[side] if e.rekey is not None]))
+            elif k < 0.62 or not held:
                 h.send(side, r.choice(["arg", "arg", "ret"]), gen_spec(r, h, side, r.choice([0, 1, 2, 3]), stats))
             elif k < 0.80:
                 h.drop(side, r.choice(held))
@@ -919,6 +1001,8 @@ def replay_ops(ctx, ops):
                     h.mutate(op[1], op[2], op[3])
             elif op[0] == "raw":
                 h.raw(op[1], op[2])
+            elif op[0] == "rekey":
+                h.rekey(op[1], op[2])
     except Exception as e:
         h.crashed(e)
     return h
@@ -986,11 +1070,13 @@ def idp_tables(ctx, model):
         return {}, {}
     outs = model.batch([["idp", e.sx] for e in pool], shards=1)
     idp_model, idp_inv = {}, {}
+    for e, o in zip(pool, model.batch([["idpr", e.sx] for e in pool], shards=1)):      # the pack after a class change
+        idp_inv[canon_sx([o[0], o[1], o[2]])] = canon_sx(e.sx)
     for e, o in zip(pool, outs):
         pv = [9, [[8, o[0]], [4, o[1]], [4, o[2]]]]
         idp_model[canon_sx(e.sx)] = pv
         key = canon_sx([o[0], o[1], o[2]])
-        if key in idp_inv:
+        if key in idp_inv and idp_inv[key] != canon_sx(e.sx):
             ctx.tie_broken("harness:idp-collision", "%r and %r" % (idp_inv[key], e.sx))
         idp_inv[key] = canon_sx(e.sx)
     return idp_model, idp_inv
@@ -1010,15 +1096,58 @@ COPY_OBJECTS = [
 ]
 
 
-def check_copy(ctx, which, idx):
-    kind, mk, mut = COPY_OBJECTS[idx]
-    case = {"kind": "copy", "which": which, "idx": idx}
+def gen_picklable(r, depth, top=True):
+    """a random picklable structure; at the top a mutable container or instance (so that it travels by reference)"""
+    k = r.random()
+    if not top and (depth <= 0 or k < 0.45):
+        return r.choice([None, True, 0, -1, 255, 2**70, 1.5, -0.0, "", "txt", "\u20ac", b"", b"\x00\xff", (), (1, "a"), frozenset([1, 2]),
+                         PColor.RED, PInt(3), r.randint(-10**6, 10**6), r.random()])
+    n = r.choice([0, 1, 2, 3])
+    sub = lambda: gen_picklable(r, depth - 1, False)
+    c = r.random()
+    if c < 0.35:
+        return [sub() for _ in range(n)]
+    if c < 0.6:
+        return {r.choice(["a", "b", 1, (1, 2), None]): sub() for _ in range(n)}
+    if c < 0.7:
+        return {r.choice([1, 2, "x", (3, 4), None, 2.5]) for _ in range(n)}
+    if c < 0.8:
+        return bytearray(r.randbytes(n))
+    if c < 0.9:
+        return PThing(sub())
+    return [PNT(sub(), [sub()])] if top else PNT(sub(), sub())
+
+
+def _first_mutable(o):
+    """a mutation of the structure (its top container)"""
+    if isinstance(o, list):
+        return lambda x: x.append("c03")
+    if isinstance(o, dict):
+        return lambda x: x.__setitem__("c03", 1)
+    if isinstance(o, set):
+        return lambda x: x.add("c03")
+    if isinstance(o, bytearray):
+        return lambda x: x.append(7)
+    if isinstance(o, PThing):
+        return lambda x: setattr(x, "a", ("c03", x.a))
+    return None
+
+
+def check_copy(ctx, which, idx, seed=None):
+    if seed is None:
+        kind, mk, mut = COPY_OBJECTS[idx]
+        case = {"kind": "copy", "which": which, "idx": idx}
+    else:
+        import random
+        proto = gen_picklable(random.Random(seed), 3)
+        kind, mk, mut = "generated-" + type(proto).__name__, (lambda: gen_picklable(random.Random(seed), 3)), _first_mutable(proto)
+        case = {"kind": "copy", "which": which, "idx": None, "seed": seed}
     pr = Pair(ctx, classic_services=True)
     try:
         for s in (True, False):
             pr.conn[s]._local_root.on_connect(pr.conn[s])
         obj = mk()
-        ctx.case(("copy", which, kind), nontrivial=True, sample={"copy": which, "object": kind})
+        ctx.case(("copy", which, kind, seed), nontrivial=True, sample={"copy": which, "object": kind})
         ctx.count("copy:" + which)
         if which == "obtain":
             pr.conn[True].sync_request(H_KEEP, obj)
@@ -1073,6 +1202,79 @@ def check_copy(ctx, which, idx):
         pr.close()
 
 
+# ------------------------------------------------------------------ three address spaces (oracle only; outside the model)
+CHAIN_KINDS = [
+    ("list", lambda: [1, 2], lambda c, p, d: c.sync_request(consts.HANDLE_CALLATTR, p, "append", (d,)), lambda o, d: o[-1] == d),
+    ("dict", lambda: {"a": 1}, lambda c, p, d: c.sync_request(consts.HANDLE_CALLATTR, p, "__setitem__", ("k", d)), lambda o, d: o.get("k") == d),
+    ("instance", lambda: PThing(1), lambda c, p, d: c.sync_request(consts.HANDLE_SETATTR, p, "a", d), lambda o, d: o.a == d),
+    ("int-subclass", lambda: PInt(5), lambda c, p, d: c.sync_request(consts.HANDLE_SETATTR, p, "c03_tag", d), lambda o, d: vars(o).get("c03_tag") == d),
+    ("class", lambda: type("Chained", (), {}), lambda c, p, d: c.sync_request(consts.HANDLE_SETATTR, p, "c03_tag", d), lambda o, d: vars(o).get("c03_tag") == d),
+    ("function", lambda: (lambda: 0), lambda c, p, d: c.sync_request(consts.HANDLE_SETATTR, p, "c03_tag", d), lambda o, d: vars(o).get("c03_tag") == d),
+]
+
+
+def check_chain(ctx, idx):
+    """A lends an object to B, B lends its proxy to C over a second connection: C's reference reaches A's object, and on
+    the way back each party gets what it lent (C -> B: B's proxy itself; B -> A: the original)"""
+    kind, mk, mut, hit = CHAIN_KINDS[idx]
+    case = {"kind": "chain", "idx": idx}
+    ctx.case(("chain", kind), nontrivial=True, sample={"chain": "A->B->C->B->A", "object": kind})
+    ctx.count("chain:two-hops")
+    a1, b1, m1, m2 = connect_pair(VoidService(), VoidService(), dict(CFG), dict(CFG))
+    b2, c2, m3, m4 = connect_pair(VoidService(), VoidService(), dict(CFG), dict(CFG))
+    sinks = {}
+    for name, c in (("a1", a1), ("b1", b1), ("b2", b2), ("c2", c2)):
+        sinks[name] = []
+        h = dict(c._HANDLERS)
+        h[H_KEEP] = (lambda sink: (lambda conn, obj: sink.append(obj)))(sinks[name])
+        c._HANDLERS = h
+    try:
+        obj = mk()
+        a1.sync_request(H_KEEP, obj)
+        pb = sinks["b1"].pop()
+        b2.sync_request(H_KEEP, pb)
+        pc = sinks["c2"].pop()
+        if not (is_netref(pb) and is_netref(pc)):
+            ctx.violation("object-arrives-by-value:" + kind, case, observed="%s / %s" % (short(pb), short(pc)), expected="references",
+                          what="an object did not travel by reference over two hops")
+            return
+        if is_value(obj):
+            return
+        mut(c2, pc, 4711)
+        if not hit(obj, 4711):
+            ctx.violation("two-hop-reference:mutation-not-on-owner-object", case, observed="owner's object unchanged", expected="effect of 4711",
+                          what="a change made through a reference two hops away is not a change to the owner's object (%s)" % kind)
+        c2.sync_request(H_KEEP, pc)
+        back_b = sinks["b2"].pop()
+        if back_b is not pb:
+            ctx.violation("two-hop-reference:echo-not-original", case, observed=short(back_b), expected="B's own proxy",
+                          what="C handing the reference back to B does not yield what B lent (%s)" % kind)
+            return
+        b1.sync_request(H_KEEP, back_b)
+        back_a = sinks["a1"].pop()
+        if back_a is not obj:
+            ctx.violation("two-hop-reference:echo-not-original", case, observed=short(back_a), expected="the original object",
+                          what="the reference handed back over two hops is not the original object (%s)" % kind)
+        b2.sync_request(H_KEEP, pb)
+        if sinks["c2"].pop() is not pc:
+            ctx.violation("two-hop-reference:second-proxy-while-first-alive", case, observed="a new proxy", expected="the live proxy",
+                          what="C received B's reference again while its proxy is alive and got a different proxy (%s)" % kind)
+    except Exception as e:
+        ctx.violation("two-hop-reference-fails:%s" % type(e).__name__, case, observed=str(e)[:200], expected="references work over two hops",
+                      what="lending a reference onwards to a third party raises (%s)" % kind)
+    finally:
+        for m in (m1, m2, m3, m4):
+            m.on_idle = None
+            m.close()
+        for c in (a1, b1, b2, c2):
+            try:
+                c.close()
+            except Exception:
+                pass
+        for v in sinks.values():
+            del v[:]
+
+
 # ------------------------------------------------------------------ dedicated short histories
 def probe_ops(idx, side=True):
     """send one object, echo it, send it again (same proxy), operate through it, drop, re-receive"""
@@ -1100,6 +1302,23 @@ def twin_ops(ids, side, variant):
     return ops
 
 
+def rekey_ops(idx, side, variant):
+    """the class of an object is reassigned / renamed between two sends"""
+    S, R, O = side, (not side), {"o": idx}
+    if variant == 0:      # while lent: second proxy; dropping the first releases the second's entry; echo of the second fails
+        return [["send", S, "arg", O], ["rekey", S, idx], ["send", S, "arg", O], ["send", R, "arg", {"h": 0}], ["mut", R, 0, 31],
+                ["mut", R, 1, 32], ["drop", R, 0], ["send", R, "arg", {"h": 1}]]
+    if variant == 1:      # changed and changed back while lent: the same proxy again
+        return [["send", S, "arg", O], ["rekey", S, idx], ["rekey", S, idx], ["send", S, "ret", O], ["send", R, "arg", {"h": 0}],
+                ["drop", R, 0], ["send", S, "arg", O], ["send", R, "ret", {"h": 1}]]
+    if variant == 2:      # changed while NOT lent: nothing to see
+        return [["rekey", S, idx], ["send", S, "arg", O], ["send", S, "ret", {"t": [O, O]}], ["send", R, "arg", {"h": 0}], ["drop", R, 0],
+                ["rekey", S, idx], ["send", S, "arg", O], ["mut", R, 1, 33], ["send", R, "arg", {"h": 1}]]
+    # while lent, the second proxy dropped first, then the first
+    return [["send", S, "ret", O], ["rekey", S, idx], ["send", S, "arg", {"t": [O, {"p": C.sx_dumps([4, 7])}]}], ["drop", R, 1],
+            ["send", R, "ret", {"h": 0}], ["mut", R, 0, 34], ["drop", R, 0], ["send", S, "arg", O], ["send", R, "arg", {"h": 2}]]
+
+
 def count_history(ctx, h, stats):
     for op, o in zip(h.ops, h.obs):
         if op[0] == "send":
@@ -1114,7 +1333,7 @@ def count_history(ctx, h, stats):
             ctx.count("step:raw:" + o["result"][0] + ("" if o["result"][0] == "ok" else ":" + str(o["result"][1])))
         else:
             ctx.case((op[0], tuple(op[1:]), len(h.ops)), nontrivial=True, sample=None)
-            ctx.count("step:" + op[0])
+            ctx.count("step:" + ("class-change" if op[0] == "rekey" else op[0]))
 
 
 def run(ctx):
@@ -1130,7 +1349,8 @@ def run(ctx):
         "shape (C04 generator), 56 pool objects per party (containers, functions, classes, modules, enum members, named tuples, subclass "
         "instances, frozensets/slices holding objects, three distinct SAME-NAMED classes and instances of them), tuples nesting all of them "
         "up to depth 3; one dedicated history per pool object; 40 scripted histories lending same-named classes/instances at overlapping "
-        "times in both directions (and a 20% bias towards them in random histories); "
+        "times in both directions (and a 20% bias towards them in random histories); 32 scripted histories (and 3% of random steps) "
+        "that reassign o.__class__ or rename the class of an object between sends; a real three-party chain for 6 object kinds; "
         "obtain/deliver on classic connections. A step is non-trivial unless it sends a single short plain value; distinct by the "
         "abstract operation text")
     stats = {}
@@ -1151,6 +1371,12 @@ def run(ctx):
                 h = replay_ops(ctx, twin_ops(ids, side, variant))
                 ctx.count("history:same-named-classes")
                 hists.append(h)
+    # the class of an object is reassigned (o.__class__ = K2) or renamed (K.__name__ = ...) between sends
+    for idx in [e.idx for e in ref if e.rekey is not None]:
+        for side in (True, False):
+            for variant in range(4):
+                hists.append(replay_ops(ctx, rekey_ops(idx, side, variant)))
+                ctx.count("history:class-changed-between-sends")
     for i in range(n_hist):
         hists.append(gen_history(ctx, r, r.choice([3, 6, 10, 14, 20]), stats))
         if len(hists) >= 400:
@@ -1160,6 +1386,10 @@ def run(ctx):
     for which in ("obtain", "deliver"):
         for idx in range(len(COPY_OBJECTS)):
             check_copy(ctx, which, idx)
+        for i in range(40 if ctx.quick else 600):
+            check_copy(ctx, which, None, seed=r.randrange(2**32))
+    for i in range(len(CHAIN_KINDS)):
+        check_chain(ctx, i)
     for k, v in stats.items():
         ctx.count("leaf:" + k, v)
 
@@ -1180,7 +1410,9 @@ def replay(ctx, rep):
     idp_model, idp_inv = idp_tables(ctx, model)
     Hist.idp_model = idp_model
     if case.get("kind") == "copy":
-        check_copy(ctx, case["which"], case["idx"])
+        check_copy(ctx, case["which"], case["idx"], seed=case.get("seed"))
+    elif case.get("kind") == "chain":
+        check_chain(ctx, case["idx"])
     elif case.get("kind") == "hist":
         h = replay_ops(ctx, case["ops"])
         flush(ctx, [h], model, idp_model, idp_inv, sp, lad, {})
